@@ -41,6 +41,7 @@ type gateIn struct {
 	Redirect   string     `json:"redirect"` // redirect= option ("" = none); a 3xx value makes fabio answer itself
 	Strip      string     `json:"strip"`
 	HostOpt    string     `json:"host"`
+	Kind       string     `json:"kind"` // http only: "" | "ws" (Upgrade: websocket) | "sse" (Accept: text/event-stream)
 }
 
 type gateEnv struct {
@@ -265,7 +266,14 @@ func runGate(raw json.RawMessage) (interface{}, error) {
 	defer c.Close()
 	c.SetDeadline(time.Now().Add(5 * time.Second))
 	peer := c.LocalAddr().String()
-	outcome, err := exchange(c, in.Proto, in.XFF, in.Cred, nil)
+	var extra http.Header
+	switch in.Kind {
+	case "ws":
+		extra = http.Header{"Upgrade": {"websocket"}, "Connection": {"Upgrade"}}
+	case "sse":
+		extra = http.Header{"Accept": {"text/event-stream"}}
+	}
+	outcome, err := exchange(c, in.Proto, in.XFF, in.Cred, extra)
 	if err != nil {
 		return nil, err
 	}
@@ -390,6 +398,9 @@ func genGate(r *hx.Rand) gateIn {
 		if r.Chance(1, 4) {
 			in.HostOpt = r.Pick([]string{"dst", "h.c12.test"})
 		}
+		// the other two ways ServeHTTP reaches an upstream: the websocket handler (hijack, raw dial) and the
+		// flushing reverse proxy of server-sent events - behind the same gates
+		in.Kind = r.Pick([]string{"", "", "", "ws", "sse"})
 	}
 	in.NoRoute = r.Chance(1, 25)
 	return in
@@ -413,6 +424,10 @@ func init() {
 			gateIn{Proto: "http", Via: "v4", Scheme: "nope", Redirect: "308", Secrets: defaultSecrets, Registered: []string{}, XFF: []string{}, Cred: credIn{"basic", "alice", "secret"}},
 			gateIn{Proto: "http", Via: "v4", Allow: "ip:127.0.0.0/8", Scheme: "basic", Redirect: "301", Secrets: defaultSecrets, Registered: []string{"basic"}, XFF: []string{}, Cred: credIn{"basic", "alice", "secret"}},
 			gateIn{Proto: "http", Via: "v4", Deny: "ip:bad", Redirect: "301", Secrets: defaultSecrets, Registered: []string{}, XFF: []string{}, Cred: none},
+			gateIn{Proto: "http", Kind: "ws", Via: "v4", Scheme: "basic", Secrets: defaultSecrets, Registered: []string{"basic"}, XFF: []string{}, Cred: none},
+			gateIn{Proto: "http", Kind: "ws", Via: "v4", Scheme: "basic", Secrets: defaultSecrets, Registered: []string{"basic"}, XFF: []string{}, Cred: credIn{"basic", "alice", "secret"}},
+			gateIn{Proto: "http", Kind: "ws", Via: "v4", Deny: "ip:127.0.0.1", Redirect: "301", Secrets: defaultSecrets, Registered: []string{}, XFF: []string{}, Cred: none},
+			gateIn{Proto: "http", Kind: "sse", Via: "v6", Allow: "ip:::1", Scheme: "nope", Secrets: defaultSecrets, Registered: []string{"basic"}, XFF: []string{}, Cred: credIn{"basic", "alice", "secret"}},
 			gateIn{Proto: "tcp", Via: "v4", Deny: "ip:127.0.0.1", Secrets: defaultSecrets, Registered: []string{}, XFF: []string{}, Cred: none},
 			gateIn{Proto: "tcp", Via: "v4", Deny: "ip:bad,ip:127.0.0.1", Secrets: defaultSecrets, Registered: []string{}, XFF: []string{}, Cred: none},
 			gateIn{Proto: "sni", Via: "v6", Allow: "ip:127.0.0.0/8", Secrets: defaultSecrets, Registered: []string{}, XFF: []string{}, Cred: none},
